@@ -39,6 +39,10 @@ def _reparse(data):
 
 
 NAMES = ['Subject', 'From', 'To', 'X-A', 'Received', 'x-lower', 'Date', 'Message-Id', 'X-A', 'Content-Type']
+MIME_TYPES = ['text/plain', 'text/plain; charset="utf-8"', 'text/html; charset=iso-8859-1', 'multipart/mixed; boundary="b"',
+              'multipart/alternative; boundary=xyz', 'multipart/digest; boundary="d"', 'multipart/mixed', 'message/rfc822',
+              'message/delivery-status', 'message/partial; id="a@b"; number=1; total=2', 'message/external-body; access-type=local-file',
+              'application/octet-stream', 'image/png; name="x.png"', 'text/plain; format=flowed; delsp=yes', 'bogus', 'x/y; a=b; c="d e"']
 VCH = u'abc xyz,;=<>@"()\\\xe9\xff:'
 
 
@@ -51,6 +55,13 @@ def gen_domain(rnd):
             w = ''.join(rnd.choice(VCH) for _ in range(rnd.randint(1, 30))).strip() or 'v'
             parts.append(w)
         hs.append((rnd.choice(NAMES), (eol + rnd.choice([' ', '\t'])).join(parts)))
+    if rnd.random() < 0.35:
+        # structured MIME fields: the header block is parsed on its own, whatever the content type announces
+        hs.insert(rnd.randint(0, len(hs)), ('Content-Type', rnd.choice(MIME_TYPES)))
+        if rnd.random() < 0.5:
+            hs.insert(rnd.randint(0, len(hs)), ('Content-Transfer-Encoding', rnd.choice(['7bit', '8bit', 'base64', 'quoted-printable', 'binary'])))
+        if rnd.random() < 0.5:
+            hs.insert(0, ('MIME-Version', '1.0'))
     enc = rnd.choice(['utf-8', 'latin-1'])
     hb = ''.join('%s: %s%s' % (n, v, eol) for n, v in hs).encode(enc)
     if any(len(l) > 78 for l in re.split(b'\r?\n', hb)):
@@ -59,6 +70,9 @@ def gen_domain(rnd):
     r = rnd.random()
     if r < 0.35:
         body = rnd.choice([b'\r\n', b'\n', b'\r\n\r\n', b' \r\n', b'\t\n\n', b'\r\n.\r\n', b'\r']) + body
+    elif r < 0.5:
+        body = rnd.choice([b'--b\r\nContent-Type: text/plain\r\n\r\npart\r\n--b--\r\n', b'Subject: inner\r\n\r\ninner body\r\n',
+                           b'Reporting-MTA: dns; x\r\n\r\nFinal-Recipient: rfc822; a@b\r\nStatus: 5.0.0\r\n', b'--b\n\n--b--', b'aGVsbG8=\r\n']) + body
     return hb + eol.encode() + body
 
 
